@@ -219,13 +219,18 @@ pub struct CliRun {
     pub hash_seed: u64,
     pub env: BTreeMap<String, String>,
     pub fault: Fault,
+    /// files present in the working directory the tool is started from (name ->
+    /// content), e.g. a `rustfmt.toml` that the output must not depend on
+    #[serde(default)]
+    pub cwd_files: BTreeMap<String, String>,
 }
 
 impl CliRun {
     pub fn target_rel(&self) -> Option<String> {
         match &self.out {
             OutMode::Stdout => None,
-            OutMode::File(f) => Some(f.clone()),
+            // the command line keeps the spelling (`./-`); listings are relative
+            OutMode::File(f) => Some(f.strip_prefix("./").unwrap_or(f).to_string()),
             OutMode::Default => {
                 let p = Path::new(&self.input_name).with_extension("rs");
                 Some(p.to_string_lossy().to_string())
@@ -381,6 +386,9 @@ fn execute_cli_in(run: &CliRun, tools: &Tools, dir: &Path) -> Result<(CliObserva
             }
         }
     }
+    for (name, content) in &run.cwd_files {
+        std::fs::write(dir.join(name), content).map_err(|e| e.to_string())?;
+    }
     let mut before = BTreeMap::new();
     list_files(dir, dir, &mut before);
 
@@ -433,6 +441,9 @@ fn execute_cli_in(run: &CliRun, tools: &Tools, dir: &Path) -> Result<(CliObserva
     let target_leaf = target_rel
         .as_ref()
         .map(|t| Path::new(t).file_name().unwrap().to_string_lossy().to_string())
+        // the shim matches rules by substring of the path: a file named `-` is
+        // addressed with its separator
+        .map(|leaf| if leaf == "-" { "/-".to_string() } else { leaf })
         .unwrap_or_default();
     let input_leaf = Path::new(&run.input_name).file_name().unwrap().to_string_lossy().to_string();
     let plan = match &run.fault {
@@ -1024,10 +1035,14 @@ pub fn gen_cli_run(seed: u64, corpus: &[CorpusDoc], faults: bool) -> CliRun {
     let input_name = rng
         .pick(&["in.json", "a.b.json", "noext", "sub/dir/schema.json", "UPPER.JSON", "sp ace.json"])
         .to_string();
-    let out = match rng.below(5) {
+    let out = match rng.below(8) {
         0 | 1 => OutMode::Default,
         2 => OutMode::File("out.rs".into()),
         3 => OutMode::File("gen/types.txt".into()),
+        // a FILE named `-`: only the bare `-` means stdout
+        4 => OutMode::File("./-".into()),
+        5 => OutMode::File("gen/-".into()),
+        6 => OutMode::File("./sub dir/-out.rs".into()),
         _ => OutMode::Stdout,
     };
     let preexisting_target = rng.chance(1, 2);
@@ -1109,6 +1124,7 @@ pub fn gen_cli_run(seed: u64, corpus: &[CorpusDoc], faults: bool) -> CliRun {
         hash_seed,
         env,
         fault,
+        cwd_files: BTreeMap::new(),
     }
 }
 
